@@ -63,8 +63,11 @@ type c46Sys struct {
 	net       *c46Net
 	ids       map[string]peer.ID
 	names     map[peer.ID]string
-	base      int // goroutines before the run
 }
+
+// goroutines of the test process before the first run (a leftover goroutine of an earlier run then only
+// prevents Quiet events, it can never produce a wrong one)
+var c46Base int
 
 type c46Host struct {
 	host.Host
@@ -389,7 +392,7 @@ func (s *c46Sys) settle() bool {
 		s.mu.Lock()
 		waiting := len(s.gates)
 		s.mu.Unlock()
-		if runtime.NumGoroutine() <= s.base+waiting {
+		if runtime.NumGoroutine() <= c46Base+waiting {
 			s.emit(M{"ev": "Quiet", "dials": waiting})
 			return true
 		}
@@ -424,7 +427,7 @@ func (s *c46Sys) finish(keep bool) {
 			}
 			hd.ph.mu.Unlock()
 		}
-		for i := 0; i < 50 && runtime.NumGoroutine() > s.base; i++ {
+		for i := 0; i < 50 && runtime.NumGoroutine() > c46Base; i++ {
 			runtime.Gosched()
 			time.Sleep(20 * time.Microsecond)
 		}
@@ -438,7 +441,6 @@ func (s *c46Sys) finish(keep bool) {
 
 // exec runs one script; commands that do not apply in the current state are skipped.
 func (s *c46Sys) exec(script []string) {
-	s.base = runtime.NumGoroutine()
 	for _, c := range script {
 		f := strings.Fields(c)
 		switch f[0] {
@@ -504,6 +506,7 @@ func TestVerifC46(t *testing.T) {
 		return
 	}
 	defer runtime.GOMAXPROCS(runtime.GOMAXPROCS(1))
+	c46Base = runtime.NumGoroutine()
 	switch vEnv("C46_SCEN") {
 	case "directed":
 		for _, sc := range c46Directed() {
@@ -536,7 +539,7 @@ func c46Random() {
 	rng := vRand()
 	runs := 120
 	if !vQuick() {
-		runs = 1500
+		runs = 800
 	}
 	if n := vEnvInt("C46_RUNS", 0); n > 0 {
 		runs = n
